@@ -86,6 +86,49 @@ class Obj:
 
 
 @dataclass(frozen=True)
+class AList:
+    """Abstract list value (immutable; mutation rebinds the environment entry)."""
+
+    items: tuple = ()
+
+    def __repr__(self) -> str:
+        return "[" + ", ".join(map(repr, self.items)) + "]"
+
+
+@dataclass(frozen=True)
+class ADict:
+    items: tuple = ()  # ((key, value), ...) in insertion order
+
+    def get(self, k: Any, default: Any = None) -> Any:
+        for kk, v in self.items:
+            if sym_eq(kk, k) is True:
+                return v
+        return default
+
+    def has(self, k: Any) -> bool:
+        return any(sym_eq(kk, k) is True for kk, _ in self.items)
+
+    def set(self, k: Any, v: Any) -> "ADict":
+        if self.has(k):
+            return ADict(tuple((kk, v if sym_eq(kk, k) is True else vv) for kk, vv in self.items))
+        return ADict(self.items + ((k, v),))
+
+    def drop(self, k: Any) -> "ADict":
+        return ADict(tuple((kk, vv) for kk, vv in self.items if sym_eq(kk, k) is not True))
+
+    def __repr__(self) -> str:
+        return "{" + ", ".join(f"{k!r}: {v!r}" for k, v in self.items) + "}"
+
+
+@dataclass(frozen=True)
+class Ref:
+    """Reference to a list stored inside an abstract dict: (environment key of the dict, dict key)."""
+
+    env_key: str
+    key: Any
+
+
+@dataclass(frozen=True)
 class Raise:
     exc: str
 
@@ -101,6 +144,8 @@ def truth(v: Any) -> bool | None:
         return None
     if isinstance(v, Obj):
         return True
+    if isinstance(v, (AList, ADict)):
+        return bool(v.items)
     if isinstance(v, (B.BitRec, B.SymBits)):
         return B.truth(v)
     if isinstance(v, Sym):
@@ -199,9 +244,32 @@ class AbsMachine:
             return UNKNOWN
         if isinstance(e, ast.Tuple):
             return tuple(self.ev(x, env, chosen) for x in e.elts)
+        if isinstance(e, ast.List):
+            return AList(tuple(self.ev(x, env, chosen) for x in e.elts))
+        if isinstance(e, ast.Dict) and all(k is not None for k in e.keys):
+            return ADict(tuple((self.ev(k, env, chosen), self.ev(v, env, chosen)) for k, v in zip(e.keys, e.values)))
         if isinstance(e, ast.Call):
             if id(e) in chosen:
                 return chosen[id(e)]
+            r = self._container_call(e, env, chosen)
+            if r is not NotImplemented:
+                return r
+            if isinstance(e.func, ast.Name) and e.func.id == "len" and len(e.args) == 1:
+                v = self._deref(self.ev(e.args[0], env, chosen), env)
+                if isinstance(v, (AList, ADict)):
+                    return len(v.items)
+                if isinstance(v, tuple):
+                    return len(v)
+                return UNKNOWN
+            if isinstance(e.func, ast.Name) and e.func.id in ("list", "tuple") and len(e.args) <= 1:
+                if not e.args:
+                    return AList(()) if e.func.id == "list" else ()
+                v = self._deref(self.ev(e.args[0], env, chosen), env)
+                if isinstance(v, AList):
+                    return AList(v.items) if e.func.id == "list" else tuple(v.items)
+                if isinstance(v, tuple):
+                    return AList(v) if e.func.id == "list" else v
+                return UNKNOWN
             if isinstance(e.func, ast.Name) and e.func.id == "isinstance" and len(e.args) == 2:
                 v = self.ev(e.args[0], env, chosen)
                 def _flat(t: ast.AST) -> list[ast.AST]:
@@ -238,7 +306,7 @@ class AbsMachine:
         if isinstance(e, ast.UnaryOp):
             v = self.ev(e.operand, env, chosen)
             if isinstance(e.op, ast.Not):
-                t = truth(v)
+                t = truth(self._deref(v, env))
                 return UNKNOWN if t is None else (not t)
             if isinstance(e.op, ast.USub) and isinstance(v, (int, float)):
                 return -v
@@ -264,7 +332,7 @@ class AbsMachine:
             left = self.ev(e.left, env, chosen)
             result: Any = True
             for op, comp in zip(e.ops, e.comparators):
-                right = self.ev(comp, env, chosen)
+                right = self._deref(self.ev(comp, env, chosen), env)
                 r = self._cmp(op, left, right)
                 if r is None:
                     return UNKNOWN
@@ -281,6 +349,15 @@ class AbsMachine:
             idx = self.ev(e.slice, env, chosen)
             if isinstance(base, tuple) and isinstance(idx, int) and -len(base) <= idx < len(base):
                 return base[idx]
+            if isinstance(base, ADict):
+                if base.has(idx):
+                    v = base.get(idx)
+                    return Ref(ast.unparse(e.value), idx) if isinstance(v, AList) else v
+                env["#pending_raise"] = "KeyError"
+                return UNKNOWN
+            basev = self._deref(base, env)
+            if isinstance(basev, AList) and isinstance(idx, int) and -len(basev.items) <= idx < len(basev.items):
+                return basev.items[idx]
             return UNKNOWN
         return UNKNOWN
 
@@ -291,6 +368,10 @@ class AbsMachine:
         if isinstance(op, (ast.NotEq, ast.IsNot)):
             r = sym_eq(a, b)
             return None if r is None else not r
+        if isinstance(op, (ast.In, ast.NotIn)) and isinstance(b, AList):
+            b = b.items
+        if isinstance(op, (ast.In, ast.NotIn)) and isinstance(b, ADict):
+            b = tuple(k for k, _ in b.items)
         if isinstance(op, (ast.In, ast.NotIn)) and isinstance(b, (tuple, list, frozenset, set)):
             res = [sym_eq(a, x) for x in b]
             r = True if any(x is True for x in res) else (None if any(x is None for x in res) else False)
@@ -409,8 +490,117 @@ class AbsMachine:
                     self._bind(t, UNKNOWN, env)
         elif isinstance(target, (ast.Name, ast.Attribute)):
             env[ast.unparse(target)] = value
+        elif isinstance(target, ast.Subscript):
+            key = ast.unparse(target.value)
+            cont = env.get(key)
+            if isinstance(cont, ADict):
+                k = self.ev(target.slice, env, {})
+                env[key] = cont.set(k, value)
+                self._event(env, f"SETITEM {key}[{k!r}]")
         elif isinstance(target, ast.Starred):
             self._bind(target.value, UNKNOWN, env)
+
+    @staticmethod
+    def _event(env: Env, ev: str) -> None:
+        if env.get("#trace_containers"):
+            env["trace"] = tuple(env.get("trace", ())) + (ev,)
+
+    # ------------------------------------------------- abstract containers
+    def _deref(self, v: Any, env: Env) -> Any:
+        if isinstance(v, Ref):
+            d = env.get(v.env_key)
+            if isinstance(d, ADict):
+                return d.get(v.key, UNKNOWN)
+            return UNKNOWN
+        return v
+
+    def _store_list(self, where: Any, new: "AList", env: Env) -> None:
+        if isinstance(where, Ref):
+            d = env.get(where.env_key)
+            if isinstance(d, ADict):
+                env[where.env_key] = d.set(where.key, new)
+        elif isinstance(where, str):
+            env[where] = new
+
+    def _container_call(self, e: ast.Call, env: Env, chosen: dict[int, Any]) -> Any:
+        """Method call on an abstract list/dict; returns NotImplemented when the receiver is not one."""
+        f = e.func
+        if not isinstance(f, ast.Attribute):
+            return NotImplemented
+        recv_expr = f.value
+        recv = self.ev(recv_expr, env, chosen)
+        loc: Any = recv if isinstance(recv, Ref) else ast.unparse(recv_expr)
+        val = self._deref(recv, env)
+        args = [self.ev(a, env, chosen) for a in e.args]
+        m = f.attr
+        if isinstance(val, AList):
+            if m == "append" and len(args) == 1:
+                self._store_list(loc, AList(val.items + (args[0],)), env)
+                return None
+            if m == "insert" and len(args) == 2 and isinstance(args[0], int):
+                it = list(val.items); it.insert(args[0], args[1])
+                self._store_list(loc, AList(tuple(it)), env)
+                return None
+            if m == "extend" and len(args) == 1 and isinstance(self._deref(args[0], env), (AList, tuple)):
+                x = self._deref(args[0], env)
+                self._store_list(loc, AList(val.items + tuple(x.items if isinstance(x, AList) else x)), env)
+                return None
+            if m == "remove" and len(args) == 1:
+                it = list(val.items)
+                for i, x in enumerate(it):
+                    if sym_eq(x, args[0]) is True:
+                        del it[i]
+                        self._store_list(loc, AList(tuple(it)), env)
+                        return None
+                env["#pending_raise"] = "ValueError"
+                return None
+            if m == "clear":
+                self._store_list(loc, AList(()), env)
+                return None
+            if m == "pop":
+                it = list(val.items)
+                if not it:
+                    env["#pending_raise"] = "IndexError"
+                    return None
+                i = args[0] if args and isinstance(args[0], int) else -1
+                x = it.pop(i)
+                self._store_list(loc, AList(tuple(it)), env)
+                return x
+            if m == "copy":
+                return val
+            return NotImplemented
+        if isinstance(val, ADict) and isinstance(loc, str):
+            if m == "get":
+                v = val.get(args[0], args[1] if len(args) > 1 else None)
+                return Ref(loc, args[0]) if isinstance(v, AList) else v
+            if m == "setdefault" and len(args) == 2:
+                if not val.has(args[0]):
+                    env[loc] = val.set(args[0], args[1])
+                    val = env[loc]
+                v = val.get(args[0])
+                return Ref(loc, args[0]) if isinstance(v, AList) else v
+            if m == "pop":
+                if val.has(args[0]):
+                    v = val.get(args[0])
+                    env[loc] = val.drop(args[0])
+                    return v
+                if len(args) > 1:
+                    return args[1]
+                env["#pending_raise"] = "KeyError"
+                return None
+            if m == "clear":
+                env[loc] = ADict(())
+                return None
+            if m == "values":
+                return tuple(v for _, v in val.items)
+            if m == "keys":
+                return tuple(k for k, _ in val.items)
+            if m == "items":
+                return tuple((k, v) for k, v in val.items)
+            if m == "copy":
+                return val
+            return NotImplemented
+        return NotImplemented
 
     def step(self, node: Node, env: Env) -> list[tuple[str, Env]] | None:
         a = node.ast
@@ -423,7 +613,20 @@ class AbsMachine:
                 e2[a.name] = Sym("exc:" + e2["#handling"])  # type: ignore[attr-defined]
             return [("next", e2)]
         if node.kind == "for" and a is not None:
-            it = self.ev(a.iter, dict(env), {})  # type: ignore[attr-defined]
+            chosen_it: dict[int, Any] = {}
+            if f"#for{node.id}" not in env:
+                for call, outs in self._modelled_calls(a.iter, env):  # type: ignore[attr-defined]
+                    if len(outs) == 1 and not isinstance(outs[0].value, Raise):
+                        chosen_it[id(call)] = outs[0].value
+                it = self._deref(self.ev(a.iter, dict(env), chosen_it), env)  # type: ignore[attr-defined]
+                if isinstance(it, AList):
+                    it = it.items
+                if isinstance(it, tuple):
+                    env = dict(env)
+                    env[f"#iter{node.id}"] = it  # the iterable is evaluated once, on loop entry
+            it = env.get(f"#iter{node.id}", UNKNOWN)
+            if isinstance(it, AList):
+                it = it.items
             if isinstance(it, tuple):
                 key = f"#for{node.id}"
                 i = env.get(key, 0)
@@ -434,6 +637,7 @@ class AbsMachine:
                     return [("iter", e2)]
                 e3 = dict(env)
                 e3.pop(key, None)
+                e3.pop(f"#iter{node.id}", None)
                 return [("done", e3)]
             return None
         if a is None or node.kind in ("join", "entry", "exit", "raise", "for", "with_exit"):
@@ -464,7 +668,11 @@ class AbsMachine:
             if self.stmt_hook is not None:
                 self.stmt_hook(node, e2)
             if node.kind == "test":
-                t = truth(self.ev(a, e2, chosen))
+                t = truth(self._deref(self.ev(a, e2, chosen), e2))
+                if "#pending_raise" in e2:
+                    exn = e2.pop("#pending_raise"); e2["#raised"] = exn
+                    results.append((f"goto:{self._exc_target(node, exn)}", e2))
+                    continue
                 if t is None:
                     results.append(("true", dict(e2)))
                     results.append(("false", dict(e2)))
@@ -514,10 +722,26 @@ class AbsMachine:
             elif isinstance(a, ast.Continue):
                 results.append(("continue", e2))
                 continue
-            elif isinstance(a, (ast.Pass, ast.FunctionDef, ast.AsyncFunctionDef, ast.ClassDef, ast.Global, ast.Nonlocal, ast.Delete, ast.Import, ast.ImportFrom)):
+            elif isinstance(a, ast.Delete):
+                for t in a.targets:
+                    if isinstance(t, ast.Subscript):
+                        key = ast.unparse(t.value)
+                        cont = e2.get(key)
+                        if isinstance(cont, ADict):
+                            k = self.ev(t.slice, e2, chosen)
+                            if cont.has(k):
+                                e2[key] = cont.drop(k)
+                            else:
+                                e2["#pending_raise"] = "KeyError"
+            elif isinstance(a, (ast.Pass, ast.FunctionDef, ast.AsyncFunctionDef, ast.ClassDef, ast.Global, ast.Nonlocal, ast.Import, ast.ImportFrom)):
                 pass
             else:
                 raise AnalysisError(f"absmachine: unsupported statement {type(a).__name__} at line {node.lineno}")
+            if "#pending_raise" in e2:
+                exn = e2.pop("#pending_raise"); e2["#raised"] = exn
+                e2["trace"] = tuple(e2.get("trace", ())) + (f"raise:{exn}",)
+                results.append((f"goto:{self._exc_target(node, exn)}", e2))
+                continue
             results.append(("next", e2))
         return results
 
